@@ -174,11 +174,21 @@ META["C12"] = dict(
 META["C11"] = dict(
     engine="lean+harness(seq)",
     design_ref="DESIGN.md section 5, C11",
-    technique="byte-level Lean model of both collectors compared with the real ones over drain histories + progress bounds evaluated on the real directory",
+    technique="Lean 4 proof (one complete cycle releases a file without live data, index and primary side; no growth; fixed point on the primary side; the low-use visit step) over the byte-level model of both collectors + correspondence over drain histories + progress bounds evaluated on the real directory (complete cycles, time-limited cycles, recovered stores)",
     text="Histories ending with files without live data are run through bounded GC rounds; the bounds of the property (dead primary file "
          "released in <= 2 cycles, unreferenced index file in <= 2 cycles, no growth of reported storage, fixed point) are evaluated on the "
-         "real store's own views and the model is compared byte-for-byte. The progress theorems (C11_primary_dead_file etc.) are stated "
-         "in DESIGN.md and not yet proved; proved core = record-list theorems.",
+         "real store's own views and the model is compared byte-for-byte. PROVED (Sth/Props/C11.lean, ~3900 lines, on states reachable by ANY "
+         "history incl. GC): C11_index_file_released (a non-current index file no bucket points into is zero-length or unlinked after ONE "
+         "complete cycle with the free-file scan; unlinked in that cycle when every file before it is free too), C11_index_released_stays, "
+         "C11_index_reap_free_file (what a cycle without the scan does to such a file), C11_primary_file_released (one complete primary GC "
+         "cycle, any threshold, releases a non-current file no entry points into; assumes two decidable state hypotheses not yet derived "
+         "from reachability: Covered - every record span of a closed file is current or recorded - and VisitedStable), C11_no_growth_index "
+         "/ _primary (no cycle makes any file longer; relocation pools byte-for-byte copies, at most two per visit), "
+         "C11_fixed_point_primary (after a complete cycle that left the pools empty every further cycle is the identity), "
+         "C11_low_use_visit (the one-visit step of draining; the cycle bound is shown on a decide example, not by induction). Findings "
+         "recorded as observations (decide runs in the file; none contradicts the statement): a stale resume point wastes one index GC "
+         "cycle; after a RESUMED index cycle the fixed point needs one more cycle; a primary file released while it was not the oldest "
+         "stays in the visited set as a zero-length file and, once it is the first file, blocks every later unlink until a reopen.",
     note=SEQ_NOTE,
 )
 META["C13"] = dict(
